@@ -224,6 +224,7 @@ type thread struct {
 	who   string
 	done  chan result
 	state int // 0 idle, 1 parked before SaveGCSafePoint, 2 blocked (neither parked nor done)
+	via   int // where it is parked: 1 = the kv.Base Save (the save goes through core.Storage), 2 = the etcd transaction commit
 	auto  bool // a complete (upd) request that was blocked: it is parked at its save when it gets through, then finished at once
 }
 
@@ -236,6 +237,7 @@ type world struct {
 	R   *res.Result
 	api http.Handler // the real REST router (server/api)
 	hold *kvx15.Hold // holds single etcd requests of the storage's client
+	ek   *kvx15.EtcdKV // parks / fails transaction commits on the server's own etcd client (the leader-guarded save of the safe point)
 	raw  kvBase      // the driver's own, independent access to the same keys (views, seeds, resets)
 
 	ambiguous bool // a failing service call straddled a second boundary of the TSO clock: its `now` is unknown
@@ -279,12 +281,15 @@ func (w *world) start(t int, v uint64, park bool) {
 	x.done = make(chan result, 1)
 	go func() {
 		w.b.Bind(x.who)
+		w.ek.Bind(x.who)
 		if park {
-			w.b.Arm(x.who, isGcSave, kvx15.Park)
+			w.armSave(x.who)
 		}
 		r, err := w.x.S.UpdateGCSafePoint(w.ctx, &pdpb.UpdateGCSafePointRequest{Header: w.x.Header(), SafePoint: v})
 		w.b.Disarm(x.who)
 		w.b.Unbind()
+		w.ek.Arm(x.who, kvx15.Pass)
+		w.ek.Unbind()
 		if err == nil && r.GetHeader().GetError() != nil {
 			err = fmt.Errorf("%v", r.GetHeader().GetError())
 		}
@@ -298,6 +303,13 @@ func noteErr(err error) {
 	if err != nil && (strings.Contains(err.Error(), "not leader") || strings.Contains(err.Error(), "not started")) {
 		leaderLost = true
 	}
+}
+
+// armSave: the request's write of gc/safe_point is parked wherever it is issued: as a Save of core.Storage's kv.Base, or as a
+// transaction commit on the server's own etcd client (the only transaction an UpdateGCSafePoint request commits)
+func (w *world) armSave(who string) {
+	w.b.Arm(who, isGcSave, kvx15.Park)
+	w.ek.Arm(who, kvx15.Park)
 }
 
 func respObs(r result) string {
@@ -317,7 +329,10 @@ func (w *world) await(t int) string {
 	}
 	select {
 	case <-w.b.Parked(x.who):
-		x.state = 1
+		x.state, x.via = 1, 1
+		return "BStarted"
+	case <-w.ek.Parked(x.who):
+		x.state, x.via = 1, 2
 		return "BStarted"
 	case r := <-x.done:
 		x.state = 0
@@ -328,7 +343,7 @@ func (w *world) await(t int) string {
 		}
 		x.state = 2
 		// when it gets through the mutex it must not touch the store before the driver has looked: park it at its save
-		w.b.Arm(x.who, isGcSave, kvx15.Park)
+		w.armSave(x.who)
 		return "BBlocked"
 	}
 }
@@ -483,7 +498,12 @@ func (w *world) exec(o *op) string {
 		if x.state != 1 {
 			return "BBad" // nothing of this thread is parked (e.g. it is blocked on the mutex)
 		}
-		w.b.Release(x.who, []kvx15.Mode{kvx15.Pass, kvx15.FailBefore, kvx15.FailAfter}[o.Out])
+		m := []kvx15.Mode{kvx15.Pass, kvx15.FailBefore, kvx15.FailAfter}[o.Out]
+		if x.via == 2 {
+			w.ek.Release(x.who, m)
+		} else {
+			w.b.Release(x.who, m)
+		}
 		r := <-x.done
 		x.state = 0
 		return respObs(r)
@@ -768,7 +788,10 @@ func (w *world) wakeBlocked(c *caseRec) {
 			ob := ""
 			select {
 			case <-w.b.Parked(x.who):
-				x.state = 1
+				x.state, x.via = 1, 1
+				ob = "BStarted"
+			case <-w.ek.Parked(x.who):
+				x.state, x.via = 1, 2
 				ob = "BStarted"
 			case r := <-x.done:
 				x.state = 0
@@ -1363,7 +1386,9 @@ func main() {
 		"minimum, or an expired entry was pruned, or a handler returned an error; distinct by sha256 of the canonical (ops,obs) text"
 	// views, seeds and resets use a kv.Base of their own over the server's client: what the driver reads must not depend on
 	// (or wait for) the storage object under test
-	w := &world{x: x, st: st, b: b, hold: hold, raw: kv.NewEtcdKVBase(x.S.GetClient(), path.Dir(x.S.GetClusterRootPath())), ctx: context.Background(), R: R}
+	ek := kvx15.NewEtcdKV(x.S.GetClient().KV)
+	x.S.GetClient().KV = ek
+	w := &world{x: x, st: st, b: b, hold: hold, ek: ek, raw: kv.NewEtcdKVBase(x.S.GetClient(), path.Dir(x.S.GetClusterRootPath())), ctx: context.Background(), R: R}
 	tsoClock = func() int64 { return w.tsoNow().Unix() }
 	w.api, _, err = api.NewHandler(w.ctx, x.S)
 	if err != nil {
